@@ -55,6 +55,10 @@ inductive Kind where
       and compileString (the latter since the F7 repair; without it an `include` added at run time saw
       stale errors: `compileString_needs_counter_reset`) -/
   | compileCounter (resetBy : List String)
+  /-- recursion-depth counter: incremented before and decremented after the nested call inside its own
+      function (two assignments, no address taken, never passed on), hence zero whenever no API call is
+      in progress (includeFile's includeDepth, added with the repair of the include-cycle stack overflow) -/
+  | balancedDepth
   deriving DecidableEq, Repr
 
 structure Class where
@@ -101,6 +105,7 @@ def classification : List Class := [
   ⟨"compileTranslationTable.c", "compilePassOpcode", "passRuleChars", .resetBeforeUse "compilePassOpcode"⟩,
   ⟨"compileTranslationTable.c", "compilePassOpcode", "passRuleDots", .resetBeforeUse "compilePassOpcode"⟩,
   ⟨"compileTranslationTable.c", "getOpcode", "lastOpcode", .searchStartOnly⟩,
+  ⟨"compileTranslationTable.c", "includeFile", "includeDepth", .balancedDepth⟩,
   ⟨"compileTranslationTable.c", "lou_readCharFromFile", "file", .otherApi "lou_readCharFromFile keeps its open file between calls by design"⟩,
   ⟨"compileTranslationTable.c", "lou_setDataPath", "dataPath", .config "lou_setDataPath"⟩,
   ⟨"compileTranslationTable.c", "lou_version", "version", .neverWritten⟩,
@@ -184,7 +189,8 @@ def agrees (v : StaticVar) (c : Class) : Bool :=
    | .poolSlots => v.assigned == 0 && v.addrTaken == 0 && v.func == "initStringBufferPool"
    | .config f => v.writers.all (· == f) || f == "harness"
    | .otherApi _ => true
-   | .compileCounter fs => fs.all (v.writers.contains ·))
+   | .compileCounter fs => fs.all (v.writers.contains ·)
+   | .balancedDepth => v.assigned == 2 && v.addrTaken == 0 && v.bareArg == 0 && v.writers == [v.func])
 
 def allAgree : List Lou.Gen.Statics.StaticVar → List Class → Bool
   | [], [] => true
